@@ -211,9 +211,14 @@ func (sm *shardMapper) MapShards(ctx context.Context, sources influxql.Sources, 
 
 type runner struct {
 	series []memSeries
+	real   *realEnv // a tsdb.Shard on disk (cases made of S / Q ops)
 }
 
-func (r *runner) Close() {}
+func (r *runner) Close() {
+	if r.real != nil {
+		r.real.close()
+	}
+}
 
 func renderVal(v interface{}) string {
 	switch v := v.(type) {
@@ -310,12 +315,37 @@ func (r *runner) Op(t []string) string {
 		if err != nil {
 			return "bad-op"
 		}
-		return r.query(string(text))
+		if r.real != nil {
+			return "bad-op"
+		}
+		sg := &shardGroup{series: r.series, isInt: len(r.series) > 0 && r.series[0].isInt}
+		return runQuery(string(text), &shardMapper{sg: sg})
+	case "S":
+		if len(r.series) > 0 {
+			return "bad-op"
+		}
+		return r.realSeries(t)
+	case "Q":
+		if len(t) < 2 || len(r.series) > 0 {
+			return "bad-op"
+		}
+		text, err := h.UnHex(t[1])
+		if err != nil {
+			return "bad-op"
+		}
+		if r.real == nil {
+			env, err := newRealEnv()
+			if err != nil {
+				return "err:setup"
+			}
+			r.real = env
+		}
+		return runQuery(string(text), &realMapper{env: r.real})
 	}
 	return "bad-op"
 }
 
-func (r *runner) query(text string) string {
+func runQuery(text string, sm query.ShardMapper) string {
 	st, err := influxql.ParseStatement(text)
 	if err != nil {
 		return "err:parse"
@@ -325,8 +355,6 @@ func (r *runner) query(text string) string {
 		return "err:parse"
 	}
 	stmt.OmitTime = true
-	sg := &shardGroup{series: r.series, isInt: len(r.series) > 0 && r.series[0].isInt}
-	sm := &shardMapper{sg: sg}
 	c, err := query.Compile(stmt, query.CompileOptions{Now: time.Unix(0, nowNanos).UTC()})
 	if err != nil {
 		return errKind(err)
@@ -387,6 +415,9 @@ type qspec struct {
 	desc    bool
 	limit   int64
 	offset  int64
+	condOp  string // "" | > | >= | < | <=   (WHERE u <op> condK)
+	condK   int64
+	aux     bool // SELECT …, u
 }
 
 func (q qspec) text() string {
@@ -402,8 +433,14 @@ func (q qspec) text() string {
 			b.WriteString(c + "(v)")
 		}
 	}
+	if q.aux {
+		b.WriteString(", u")
+	}
 	b.WriteString(" FROM m")
 	var conds []string
+	if q.condOp != "" {
+		conds = append(conds, fmt.Sprintf("u %s %d", q.condOp, q.condK))
+	}
 	if q.hasMin {
 		op := ">"
 		if q.minIncl {
@@ -457,6 +494,31 @@ func (q qspec) text() string {
 // tmin/tmax are the inclusive nanosecond bounds influxql.ConditionExpr extracts from
 // the parsed WHERE clause.
 func tokens(text string) (string, bool) {
+	main, cond, aux, ok := tokensEx(text)
+	if !ok || cond != "-" || aux {
+		return "", false
+	}
+	return main, true
+}
+
+// tokensEx additionally reports a `u <op> k` field condition ("-" = none, else gt:k …) and
+// whether `u` is selected as an auxiliary field after the calls.
+func tokensEx(text string) (string, string, bool, bool) {
+	main, cond, aux, ok := tokensRaw(text)
+	return main, cond, aux, ok
+}
+
+func tokensRaw(text string) (mainTok string, condTok string, aux bool, ok bool) {
+	fail := func() (string, string, bool, bool) { return "", "", false, false }
+	mainTok, condTok = "", "-"
+	s, okk := tokensInner(text, &condTok, &aux)
+	if !okk {
+		return fail()
+	}
+	return s, condTok, aux, true
+}
+
+func tokensInner(text string, condTok *string, auxOut *bool) (string, bool) {
 	st, err := influxql.ParseStatement(text)
 	if err != nil {
 		return "", false
@@ -467,7 +529,7 @@ func tokens(text string) (string, bool) {
 	}
 	var calls []string
 	raw := 0
-	for _, f := range stmt.Fields {
+	for fi, f := range stmt.Fields {
 		switch e := f.Expr.(type) {
 		case *influxql.Call:
 			if len(e.Args) != 1 {
@@ -478,6 +540,10 @@ func tokens(text string) (string, bool) {
 			}
 			calls = append(calls, e.Name)
 		case *influxql.VarRef:
+			if e.Val == "u" && fi == len(stmt.Fields)-1 && fi > 0 {
+				*auxOut = true
+				continue
+			}
 			if e.Val != "v" {
 				return "", false
 			}
@@ -496,8 +562,33 @@ func tokens(text string) (string, bool) {
 	}
 	valuer := influxql.NowValuer{Now: time.Unix(0, nowNanos).UTC()}
 	cond, tr, err := influxql.ConditionExpr(stmt.Condition, &valuer)
-	if err != nil || cond != nil {
+	if err != nil {
 		return "", false
+	}
+	if cond != nil {
+		be, ok := cond.(*influxql.BinaryExpr)
+		if !ok {
+			return "", false
+		}
+		ref, ok1 := be.LHS.(*influxql.VarRef)
+		lit, ok2 := be.RHS.(*influxql.IntegerLiteral)
+		if !ok1 || !ok2 || ref.Val != "u" {
+			return "", false
+		}
+		var op string
+		switch be.Op {
+		case influxql.GT:
+			op = "gt"
+		case influxql.GTE:
+			op = "ge"
+		case influxql.LT:
+			op = "lt"
+		case influxql.LTE:
+			op = "le"
+		default:
+			return "", false
+		}
+		*condTok = op + ":" + strconv.FormatInt(lit.Val, 10)
 	}
 	tmin, tmax := "-", "-"
 	if !tr.Min.IsZero() {
@@ -726,6 +817,16 @@ func gen(r *h.Rand, tier string, emit func([]string)) {
 	}
 	for i := 0; i < n; i++ {
 		emit(genCase(r, nq))
+	}
+	// the same statements (plus WHERE on a second field and an aux field next to a
+	// selector) over a REAL tsdb.Shard / tsm1 engine with sparse two-field series
+	nReal := 40
+	if tier == "thorough" {
+		nReal = 400
+	}
+	emit(realDemoCase())
+	for i := 0; i < nReal; i++ {
+		emit(genRealCase(r, 20))
 	}
 	emit([]string{"s a i 1,1 1,2", "s a x 1 1", "q zz", "nosuch"})
 }
